@@ -13,7 +13,8 @@ from harness.dsreplay import exc_site
 from harness.checks import c19
 
 PLOTS = {"standard": ["-m", "mae", "-x", "leadtime"], "pithist": ["-m", "pithist"], "reliability": ["-m", "reliability", "-r", "2"],
-         "obsfcst": ["-m", "obsfcst", "-x", "leadtime"], "map": ["-m", "mae", "-type", "map"]}
+         "obsfcst": ["-m", "obsfcst", "-x", "leadtime"], "map": ["-m", "mae", "-type", "map"],
+         "bias": ["-m", "bias", "-x", "leadtime"]}
 # on the multi-axes diagrams only the properties that make sense on every sub-axes are held
 MULTI_PROPS = {"crop", "clabel", "clim", "cmap", "obsleg", "xlim", "ylim", "xlabel", "ylabel", "labfs", "tickfs", "xrot", "yrot", "figsize", "dpi", "left", "right", "top", "bottom", "margins", "format", "pixels"}
 
@@ -65,7 +66,16 @@ def _check_chunk(cases):
         if not os.path.exists(p):
             mat.write_text(p, c19.dataset("full", w))
         files.append(p)
-    names0 = [os.path.basename(p) for p in files]
+    # the "bias" plot: forecasts that are too high everywhere, so that the perfect score (0) is not among the plotted values
+    warm = []
+    for w in (0, 1):
+        p = os.path.join(wd, "warm_%d.txt" % w)
+        if not os.path.exists(p):
+            d = c19.dataset("full", w)
+            d["fcst"] = [f if f == "nan" else f + 10 for f in d["fcst"]]
+            mat.write_text(p, d)
+        warm.append(p)
+    std_files = files
     out = os.path.join(wd, "fig.png")
     base_cache = {}
     n = 0
@@ -73,7 +83,9 @@ def _check_chunk(cases):
     for c in cases:
         plot = c["plot"]
         multi = plot == "pithist"        # pithist adjusts every sub-axes; the inset of the reliability diagram is a decoration
-        restricted = plot != "standard"
+        restricted = plot not in ("standard", "bias")
+        files = warm if plot == "bias" else std_files
+        names0 = [os.path.basename(p) for p in files]
         if plot not in base_cache:
             st, fig = _figure(files, PLOTS[plot], [], out)
             base_cache[plot] = figproj.project(fig, out, names0, all_axes=multi) if st == "ok" else None
